@@ -557,6 +557,7 @@ fn c09_configs(thorough: bool) -> Vec<Config> {
         mutators: m,
         rate,
         raw_rate: raw,
+        warmup: None,
         unsafe_mut: uns,
         ext,
         buf,
@@ -613,6 +614,28 @@ pub fn c09(thorough: bool, seed: u64) -> CheckOutput {
         },
         |a, b| a.merge(b),
     );
+    // all two-byte periods, repeated to 1000 bytes, 400 opcodes, every protocol (exhaustive over
+    // the period): repeated construction steps are where super-linear work hides
+    let periodic_len = if thorough { 800 } else { 400 };
+    let per = par_run(
+        65536 * 6,
+        Acc::new,
+        |i, acc| {
+            let proto = (i % 6) as u8;
+            let x = i / 6;
+            let pat = [(x >> 8) as u8, (x & 0xff) as u8];
+            let bytes: Vec<u8> = (0..2 * periodic_len + 200).map(|k| pat[k % 2]).collect();
+            let cfg = Config {
+                min: periodic_len,
+                max: periodic_len,
+                ..Config::default_for(proto, Entropy::Bytes(bytes))
+            };
+            check_c09(&cfg, acc);
+            acc.count("periodic_two_byte_pattern_cases", 1);
+        },
+        |a, b| a.merge(b),
+    );
+    acc.merge(per);
     let exhaustive_cases = acc.get("exhaustive_short_input_cases");
     // W1/W2 full matrix incl. unsafe, with hostile rates through the public field
     let n = if thorough { 2_000_000 } else { 120_000 };
@@ -754,7 +777,7 @@ pub fn c09(thorough: bool, seed: u64) -> CheckOutput {
     acc.sample(json!({"child_cases": child_cases.iter().map(|c| c.0.clone()).collect::<Vec<_>>()}));
     CheckOutput {
         acc,
-        rule: "cases = ALL fuzzer byte strings of length <= 2 x 6 protocols x a set of configurations (incl. unsafe, all mutators, degenerate ranges, NaN / out-of-range rates written through the public field) + full configuration matrix incl. unsafe + child-process cases (20k+ opcode pickles, TUPLE1 chains on a 2 MiB thread, 8 KiB inputs); monitors: catch_unwind, Err / empty result, hook step bound 3*max(min,max)+4, child exit status / signal; distinct = distinct output bytes; non-trivial = output longer than two bytes".into(),
+        rule: "cases = ALL fuzzer byte strings of length <= 2 x 6 protocols x a set of configurations (incl. unsafe, all mutators, degenerate ranges, NaN / out-of-range rates written through the public field) + every two-byte pattern repeated to 1000+ bytes at 400 (thorough: 800) opcodes x 6 protocols + full configuration matrix incl. unsafe + child-process cases (20k+ opcode pickles, TUPLE1 chains on a 2 MiB thread, 8 KiB inputs); monitors: catch_unwind, Err / empty result, hook step bound 3*max(min,max)+4, per-call CPU work bound max(20 s, 2e-6 s x T^2) on the generating thread, child exit status / signal; distinct = distinct output bytes; non-trivial = output longer than two bytes".into(),
         extra: json!({"exhaustive_short_input_cases": exhaustive_cases, "configurations_in_exhaustive_sweep": cfgs.len()}),
         assumptions: vec![
             "'never loops forever' is decided as a bound on emitted opcodes; a hang that emits nothing only trips the watchdog (inconclusive)".into(),
